@@ -5,22 +5,34 @@ import props.c01 as c01
 from common import tokens_close
 
 ID = "C18"
-TARGETS = ["Proofs.C18"]
+TARGETS = ["Proofs.C18", "Proofs.C18T"]
 GEN_PREFIXES = []
 THEOREMS = {"Proofs.C18": ["VerifModel.C18." + t for t in [
     "maskObsRange_idem", "pureArr_alias", "inv_init", "getRef_spec", "getArr_spec", "colsS_spec", "climS_spec",
-    "step_spec", "C18_history_independent", "C18_from_fresh", "C18_repeat", "C18_errors_pure"]]}
+    "step_spec", "C18_history_independent", "C18_from_fresh", "C18_repeat", "C18_errors_pure"]],
+    "Proofs.C18T": ["VerifModel.C18." + t for t in [
+        "init_nScored_le", "C18_history_independent_loader", "C18_history_independent_plain", "initT_ok",
+        "C18_history_independent_T", "C18_from_fresh_T", "tInput_coords"]]}
 TRUSTED_BASE = c01.TRUSTED_BASE + [
     "Model/DataState.lean: heap model of the two caches (references = indices into a store, observation arrays shared "
     "by reference between inputs, -obsrange applied in place); that get_scores never returns a reference into the "
     "cache (flatten / fancy indexing / arithmetic / .copy() allocate) is checked by the datahist stream, which re-reads "
     "every earlier answer after each request",
+    "Model/PreaggHist.lean: the loader with -T on as a pure input transformation (fields pre-aggregated on the input's own "
+    "grid into new arrays, stored CDF / quantile columns dropped, requested ones derived from the pre-aggregated members); "
+    "that Data.preaggregate and the aggregators are pure functions of their arguments (no write into the input's array, no "
+    "state) is NOT a theorem — it is what data.histT.* checks on the real code (inputs' array objects guarded by "
+    "common.Unchanged, fresh-Data replay, re-reading of earlier answers); float32 storage of the pre-aggregated arrays is "
+    "not modelled (rel. tolerance 2e-6 on datahistT replies)",
     "determinism of NumPy on the same inputs; Pit.randomize (np.random, only with x0/x1 metadata) is outside the model",
 ]
 ASSUMPTIONS = ["histories up to the first request that ends in an error exit (the command-line tool terminates there; a "
                "request that stops half way leaves the fields it got through in the cache without the cross-input "
                "missing-value step)",
                "no PIT randomisation (variable without x0/x1)",
+               "-T histories: no aggregator raises (the model pre-aggregates every field up front, the code on first request; "
+               "they differ only if an aggregator raises on a field that is never requested); -obs / -fcst FIELD not combined "
+               "with -T in the histories",
                "-obs FIELD: the stored field it names is not also requested directly in the same history, and -fcst does "
                "not name the same field (the code's cache is keyed by the stored field; witness "
                "hist_obs_field_witness.py, MERGE_NOTES)"]
@@ -33,14 +45,25 @@ RULE = ("data.hist.exh: exhaustive request sequences up to length 2 (quick) / 3 
         "are compared with their initial copies; "
         "data.hist.consumers: the same with twelve real score classes (deterministic, contingency, field and PIT scores) "
         "evaluated on the requested slice between the requests — the arrays the cache hands out must be treated as "
-        "read-only by their consumers")
+        "read-only by their consumers; "
+        "data.histT.exh: the same exhaustive sequences (length <=2 / <=3) over an 8-request menu with -T pre-aggregation on "
+        "(dim_agg_length / _method / _axis: 8 aggregators, lead-time and time windows) on datasets where every input stores "
+        "obs, PIT, a CDF column, a quantile column AND ensemble members: obs+fcst, a p@1 and a q@1/2 that the code now derives "
+        "from the pre-aggregated members (ignoring the stored column), the PIT, a member; data.histT.rand: random sequences "
+        "up to length 20 with -T over every field kind (incl. the error exit of an input without members); the inputs' array "
+        "objects are guarded (common.Unchanged) in all history streams; cli.repeatT: a command WITH -T (five -T/-Tagg/-Tx "
+        "variants) run twice in a row, then another command, then again — byte-identical csv")
 EXHAUSTIVE = {"quick": True, "thorough": True}
-EXHAUSTIVE_NOTE = "all sequences of length <=2 (quick) / <=3 (thorough) over the 17-request menu per dataset"
+EXHAUSTIVE_NOTE = ("all sequences of length <=2 (quick) / <=3 (thorough) over the 17-request menu per dataset, and over the "
+                   "8-request menu with -T on")
 LEVEL_TEXT = ("Lean theorem C18_history_independent: for every request history (any length, any order, any repetition) run "
               "through the heap model of both caches, each answer equals the pure model's answer for that request on a fresh "
               "dataset — by a state invariant (every cached reference points at the propagated array, possibly obsrange-masked; "
               "references are shared only between equal arrays; cached answers are pure answers) and induction over the "
-              "history; failing requests fail on a fresh dataset too. Tied to the real caches by exhaustive short histories.")
+              "history; failing requests fail on a fresh dataset too. Tied to the real caches by exhaustive short histories. "
+              "The theorem holds for every dataset, hence for every pure loader (C18_history_independent_loader); instance "
+              "C18_history_independent_T: the loader that pre-aggregates (-T on; CDF / quantile columns derived from the "
+              "pre-aggregated members), tied to the real code by the datahistT streams (the Lean driver answers them).")
 TECHNIQUE = "Lean 4 proof: heap-model invariant + induction over request histories; exhaustive differential correspondence"
 
 
@@ -215,6 +238,69 @@ def _rep_impl(a):
     return "same"
 
 
+# ------------------------------------------------------------------ histories with -T pre-aggregation on
+# Data(dim_agg_length / dim_agg_method / dim_agg_axis): every array the loader reads goes through Data.preaggregate
+# (a new array instead of the input's own), CDF / quantile columns are derived from the pre-aggregated ensemble even
+# when the input stores the column (data.py 474-475, 512-514, 536-543, 573).  Same protocol as datahist (head
+# `datahistT`, cfg key T=h:agg:axis); the model is the heap model run on the dataset whose loader pre-aggregates
+# (Model/PreaggHist.lean, theorem C18_history_independent_T).
+_T_AGGS = ["mean", "sum", "min", "max", "median", "range", "count", "iqr"]
+
+
+def _t_cfg(ds, rng):
+    axis = rng.choice(["leadtime", "time"])
+    h = rng.choice([7.0, 12.0, 24.0, 30.0]) if axis == "leadtime" else rng.choice([1.0, 2.0, 12.0, 24.0, 36.0])
+    ds.cfg["T"] = (h, rng.choice(_T_AGGS), axis)
+    return ds
+
+
+def menu_T(ds):
+    n = len(ds.inputs) - (1 if ds.cfg.get("clim") else 0)
+    j = 1 if n > 1 else 0
+    return [(["obs", "fcst"], 0, "all", None), (["obs", "fcst"], j, "leadtime", 0),
+            (["obs", "p@1"], j, "all", None),            # CDF column from the pre-aggregated members (stored column ignored)
+            (["q@1/2", "fcst"], 0, "leadtime", 0),       # quantile of the pre-aggregated members
+            (["pit"], 0, "no", None), (["fcst"], j, "all", None), (["p@1"], 0, "no", None),
+            (["e@0", "obs"], 0, "time", 0)]
+
+
+def _t_ops(tier, rng):
+    L = 2 if tier == "quick" else 3
+    nds = 4 if tier == "quick" else 8
+    made = 0
+    while made < nds:
+        ds = dg.gen_dataset(rng, n_inputs=rng.choice([2, 2, 3]), missing=rng.choice([0.1, 0.3]),
+                            force=("obs", "pit", "p", "q", "e"))
+        if dg.oracle_dims(ds) is None:
+            continue
+        if rng.random() < 0.4:
+            ds.cfg["obsrange"] = (0.0, 2.0)
+        _t_cfg(ds, rng)
+        made += 1
+        m = menu_T(ds)
+        for n in range(1, L + 1):
+            for seq in itertools.product(m, repeat=n):
+                yield "data.histT.exh", dg.enc_op(ds, list(seq), head="datahistT")
+    for _ in range(40 if tier == "quick" else 1000):
+        ds = dg.gen_dataset(rng, missing=rng.choice([0.1, 0.3]))
+        dims = dg.oracle_dims(ds)
+        if dims is None:
+            continue
+        if rng.random() < 0.3:
+            ds.cfg["obsrange"] = (0.0, 2.0)
+        _t_cfg(ds, rng)
+        pool = dg.all_requests(ds, dims, rng, 12)
+        seq = [rng.choice(pool) for _ in range(rng.randint(2, 20))]
+        yield "data.histT.rand", dg.enc_op(ds, seq, head="datahistT")
+    # the same -T command twice (and again after another command), through the real command line
+    for k, (kind, a) in enumerate(_REP_A):
+        t = rng.choice([["-T", "2"], ["-T", "3", "-Tagg", "max"], ["-T", "2", "-Tagg", "median"], ["-T", "12", "-Tagg", "sum"],
+                        ["-T", "2", "-Tx", "time", "-Tagg", "min"]])
+        b = rng.choice(_REP_B)
+        yield "cli.repeatT", "clirep %s%dreg %s %s 1" % (kind, (k % 3) + 1, ",".join(a + t).replace(",-", ";-"),
+                                                       ",".join(b).replace(",-", ";-"))
+
+
 _gen_ops_c18, _impl_c18, _judge_c18 = gen_ops, impl, judge
 _lean_op_c18 = globals().get("lean_op", lambda o: o)
 _cmp_c18 = globals().get("cmp", lambda op, x, y: x == y)
@@ -225,6 +311,8 @@ def gen_ops(tier, rng):
     for s in _gen_ops_c18(tier, rng):
         yield s
     for s in _rep_ops(tier, rng):
+        yield s
+    for s in _t_ops(tier, rng):
         yield s
 
 
@@ -237,6 +325,8 @@ def lean_op(op):
 
 
 def cmp(op, impl_out, model_out):
+    if op.startswith("datahistT "):
+        return tokens_close(impl_out, model_out, 2e-6, 2e-6)       # -T: the new arrays are stored as float32
     return impl_out == model_out if op.startswith("clirep ") else _cmp_c18(op, impl_out, model_out)
 
 
